@@ -223,6 +223,15 @@ func isFullChange(r protocol.Range) bool {
 func (s *Server) DidClose(ctx context.Context, params *protocol.DidCloseTextDocumentParams) error {
 	s.documents.Delete(params.TextDocument.URI)
 	tokenCache.delete(params.TextDocument.URI)
+	// The buffer is gone: the workspace goes back to what is on disk.
+	if s.workspace != nil {
+		if path := uriToPath(params.TextDocument.URI); path != "" {
+			if data, err := os.ReadFile(path); err == nil {
+				s.workspace.UpdateFile(path, string(data))
+			}
+			s.loader.InvalidateFile(path)
+		}
+	}
 	return nil
 }
 
